@@ -73,6 +73,7 @@ var c06Needles = map[string]string{
 	"unparseable-result":      "c14chk",
 	"plain-names":             "c14keep",
 	"drop-arg":                "c14emit",
+	"module-imports":          "c14modcall",
 }
 
 // c06Exact: for these changes the only possible instance is known, so a file
